@@ -929,7 +929,7 @@ pub fn main() {
                     let mut bops = prefix.clone();
                     // sometimes: two faces built by 1-links and glued by a 3-sew / 3-link, all in the same block
                     let mut scripted: Vec<Call> = Vec::new();
-                    if cx.is_none() && r2.chance(1, 3) {
+                    if cx.is_none() && r2.chance(1, 2) {
                         let free: Vec<u32> = (1..m.n_darts() as u32)
                             .filter(|&d| !peek_unused(&m, d) && m.beta::<0>(d) == 0 && m.beta::<1>(d) == 0 && m.beta::<3>(d) == 0)
                             .collect();
@@ -937,6 +937,15 @@ pub fn main() {
                         if free.len() >= 2 * k {
                             let (l, r) = (&free[..k], &free[k..2 * k]);
                             let closed = r2.chance(1, 2);
+                            // coordinates written in the block too, so that the merges of the 3-sew have something to carry
+                            if r2.chance(2, 3) {
+                                for &d in free.iter().take(2 * k + 2) {
+                                    if r2.chance(2, 3) {
+                                        let c = [r2.below(4) as f64, r2.below(4) as f64, r2.below(4) as f64];
+                                        scripted.push(Call::WriteVertex(d, c));
+                                    }
+                                }
+                            }
                             for j in 0..k - 1 {
                                 scripted.push(Call::L(1, l[j], l[j + 1]));
                                 scripted.push(Call::L(1, r[j + 1], r[j]));
@@ -944,6 +953,20 @@ pub fn main() {
                             if closed && k > 1 {
                                 scripted.push(Call::L(1, l[k - 1], l[0]));
                                 scripted.push(Call::L(1, r[0], r[k - 1]));
+                            }
+                            // open ends with a 2-neighbour given in the same block: the vertex at the open end of the
+                            // right face is then designated through an image the transaction itself wrote
+                            if !closed && free.len() >= 2 * k + 2 && r2.chance(2, 3) {
+                                let (x, y) = (free[2 * k], free[2 * k + 1]);
+                                let two = |r: &mut Rng, a: u32, b: u32| if r.chance(1, 2) { Call::S(2, a, b) } else { Call::L(2, a, b) };
+                                if m.beta::<2>(l[0]) == 0 && m.beta::<2>(x) == 0 && r2.chance(2, 3) {
+                                    let c = two(&mut r2, l[0], x);
+                                    scripted.push(c);
+                                }
+                                if m.beta::<2>(r[0]) == 0 && m.beta::<2>(y) == 0 {
+                                    let c = two(&mut r2, r[0], y);
+                                    scripted.push(c);
+                                }
                             }
                             scripted.push(if r2.chance(2, 3) { Call::S(3, l[0], r[0]) } else { Call::L(3, l[0], r[0]) });
                             scripted.reverse();
